@@ -63,8 +63,19 @@ def grids(draw, min_n=3, max_n=8, long_grid=0):
     n = draw(st.integers(min_n, max_n))
     if long_grid and draw(st.integers(0, long_grid - 1)) == 0:
         n = draw(st.sampled_from([16, 17, 25, 40]))  # a realistic number of years, beyond any small-size threshold
-    kind = draw(st.sampled_from(["unit", "const", "uneven", "uneven", "uneven-float"]))
+    kind = draw(st.sampled_from(["unit", "const", "uneven", "uneven", "uneven-float", "nearly-even"]))
     start = draw(st.sampled_from([0, 1, 1900, 2000, 2015, -5]))
+    if kind == "nearly-even":
+        # sub-annual steps written as decimal years with two decimals (2020.0, 2020.08, 2020.17, ...), or a regular
+        # grid with one label off by a hundredth: uneven, but only slightly so relative to the size of the labels
+        step = draw(st.sampled_from([1.0, 0.25, 1.0 / 12.0, 0.1]))
+        out = [round(float(start) + i * step, 2) for i in range(n)]
+        if draw(st.booleans()):
+            k = draw(st.integers(0, n - 1))
+            out[k] = round(out[k] + draw(st.sampled_from([0.01, -0.01, 0.02])), 2)
+        if all(b > a for a, b in zip(out[:-1], out[1:])):
+            return out
+        kind = "uneven-float"
     if kind == "unit":
         return [start + i for i in range(n)]
     if kind == "const":
